@@ -443,6 +443,13 @@ func ruleServeHTTP(w *World, r *Run, ruleB, ruleC, ruleE string) {
 			if len(upd) == 0 && len(writes) > 0 {
 				r.Fail(ruleC, fnServeHTTP+" | no body before the witness's verdict", w.pos(writes[0].Pos), "a body is written on a path that never asked the witness")
 			}
+			// 200, 403, 409 and 422 are the witness's verdicts: the endpoint may not pronounce them itself (a request it
+			// turns away on its own is malformed, unknown or over the rate: 400, 404, 429)
+			if len(upd) == 0 && len(whs) == 1 {
+				if c, ok := constInt(whs[0].Args[len(whs[0].Args)-1]); ok && (c == "200" || c == "403" || c == "409" || c == "422") {
+					r.Fail(ruleC, fnServeHTTP+" | verdict statuses only after the witness was asked", w.pos(whs[0].Pos), "the endpoint answers "+c+" on a path that never called the witness's Update: the request is neither counted as an attempt nor judged by the witness's rules (an early refusal of its own must be 400, 404 or 429)")
+				}
+			}
 			// ---- C10.b
 			keyB := fnServeHTTP + " | limiter consulted before the body is read"
 			if len(al) == 0 && limiterNilOnPath(s, limiter) && limiterAlwaysBuilt(w) {
